@@ -732,7 +732,7 @@ def searchFile (needle : List Char) (path : List Char) (content : List Char) :
 def takeHits (limit : Nat) (hs : List (List Char × Nat × Nat)) : List (List Char × Nat × Nat) :=
   hs.take (max limit 1)
 
-/-- `workspace_search` without include/exclude globs -/
+/-- `workspace_search` without include/exclude globs (as of commit 60b0564) -/
 def workspaceSearch (w : World) (tok : Nat) (query : List Char) (limit : Nat) : Out :=
   withSession w tok fun w =>
     let needle := (trim query).map asciiLower
@@ -742,9 +742,15 @@ def workspaceSearch (w : World) (tok : Nat) (query : List Char) (limit : Nat) : 
       let cr := canonRoot w.fs w.root
       let files := walkFiles w.fs (walkFuel w.fs) cr []
       let paths := sortNames (files.map fun r => unBackslash (joinSlash r))
-      -- `root.join(&path)` re-parses the (backslash-replaced) string
+      -- listed names are display names (backslashes rewritten): each one is normalised and
+      -- resolved through the workspace gate before it is read (commits 41f5544, 60b0564)
       let reads := paths.map fun p =>
-        (p, readFile w.fs (w.root ++ (splitSlash p).filter fun c => c ≠ [] ∧ c ≠ ['.']))
+        (p, match normalizeParts p with
+            | .error _ => none
+            | .ok parts =>
+              match resolveWs w.fs w.root parts with
+              | .error _ => none
+              | .ok joined => readFile w.fs joined)
       let hits := reads.flatMap fun (p, r) =>
         match r with
         | none => []
@@ -808,11 +814,20 @@ def step (w : World) : Op → Out
   | .format t p c => formatSource w t p c
   | .health t => health w t
 
-/-- the session `tok` is a live editor session at time `now` -/
+/-- `tok` names an editor session that has not expired at time `now` -/
 def liveEditor (i : Inner) (tok now : Nat) : Bool :=
-  match lookupKey i.sessions tok with
-  | some s => s.editor && !(s.expiresAt ≤ now)
+  match lookupKey (prune i now).sessions tok with
+  | some s => s.editor
   | none => false
+
+/-- the only situations in which an operation may change the file system: a mutating operation,
+called with `write_enabled`, by a live editor session -/
+def Op.mayMutate (w : World) : Op → Bool
+  | .apply t _ _ _ we => we && liveEditor w.inner t w.now
+  | .create t _ _ _ we => we && liveEditor w.inner t w.now
+  | .rename t _ _ we => we && liveEditor w.inner t w.now
+  | .delete t _ we => we && liveEditor w.inner t w.now
+  | _ => false
 
 /-! ## D. The document/version protocol under concurrency
 
